@@ -4,6 +4,7 @@
 package hclwrite
 
 import (
+	"github.com/hashicorp/hcl/v2"
 	"github.com/hashicorp/hcl/v2/hclsyntax"
 	"github.com/zclconf/go-cty/cty"
 )
@@ -149,26 +150,22 @@ func (bl *blockLabels) Current() []string {
 			}
 
 		case *quoted:
-			tokens := labelObj.tokens
-			if len(tokens) == 3 &&
-				tokens[0].Type == hclsyntax.TokenOQuote &&
-				tokens[1].Type == hclsyntax.TokenQuotedLit &&
-				tokens[2].Type == hclsyntax.TokenCQuote {
-				// Note that TokenQuotedLit may contain escape sequences.
-				labelString, diags := hclsyntax.ParseStringLiteralToken(tokens[1].asHCLSyntax())
+			// The label is re-parsed from its tokens rather than decoded
+			// token by token, because escape sequences (including the
+			// template escapes $${ and %%{) can span or split QuotedLit
+			// tokens depending on whether the label was parsed or generated.
+			labelExpr, diags := hclsyntax.ParseExpression(labelObj.tokens.Bytes(), "", hcl.InitialPos)
 
-				// If parsing the string literal returns error diagnostics
-				// then we can just assume the label doesn't match, because it's invalid in some way.
-				if !diags.HasErrors() {
-					labelNames = append(labelNames, labelString)
-				}
-			} else if len(tokens) == 2 &&
-				tokens[0].Type == hclsyntax.TokenOQuote &&
-				tokens[1].Type == hclsyntax.TokenCQuote {
-				// An open quote followed immediately by a closing quote is a
-				// valid but unusual blank string label.
-				labelNames = append(labelNames, "")
+			// If parsing the string literal returns error diagnostics
+			// then we can just assume the label doesn't match, because it's invalid in some way.
+			if diags.HasErrors() {
+				continue
 			}
+			labelVal, diags := labelExpr.Value(nil)
+			if diags.HasErrors() || labelVal.IsNull() || !labelVal.IsKnown() || labelVal.Type() != cty.String {
+				continue
+			}
+			labelNames = append(labelNames, labelVal.AsString())
 
 		default:
 			// If neither of the previous cases are true (should be impossible)
